@@ -14,6 +14,7 @@ import (
 
 func (api API) ServeHTTP(w http.ResponseWriter, r *http.Request) {
 	resp := api.executeRequest(r)
+	verifAdjustResponse(r, resp)
 	resp.Document.JSONAPI = &types.JSONAPI{
 		Version: "1.1",
 	}
